@@ -105,6 +105,7 @@ theorem collect_isSome (n : Nat) (ws : Nat → Child β) (h : ∀ j < n, (ws j).
 @[simp] theorem setChild_rq (s : State M β) (j : Nat) (c : Child β) : (setChild s j c).rq = s.rq := rfl
 @[simp] theorem setChild_acc0 (s : State M β) (j : Nat) (c : Child β) : (setChild s j c).acc0 = s.acc0 := rfl
 @[simp] theorem setChild_poison (s : State M β) (j : Nat) (c : Child β) : (setChild s j c).poison = s.poison := rfl
+@[simp] theorem setChild_ended (s : State M β) (j : Nat) (c : Child β) : (setChild s j c).ended = s.ended := rfl
 
 theorem take_succ_full (cfg : Cfg α β) (p t : Nat) (x : α) (h : (cfg.chunk p)[t]? = some x) :
     (full cfg p).take (t+1) = (full cfg p).take t ++ [cfg.f p t x] := by
@@ -276,7 +277,7 @@ theorem masterStep_spec (cfg : Cfg α β) (s : State (MPhase β) β) :
             simpa [masterStep, hm, hf, hrq, hpz, he', ha] using this
           · have ha' : snapG cfg s = false := by simpa using ha
             left; refine ⟨?_, .results hm hf hrq he' ?_⟩
-            · simp [masterStep, hm, hf, hrq, hpz, he', ha']; exact state_eta_ended s he'
+            · simp [masterStep, hm, hf, hrq, hpz, he', ha']; cases s; simp_all
             · intro j hj hg
               by_contra hex
               exact ha ((anyTo_iff _ _).mpr ⟨j, hj, by simp [hg, Bool.not_eq_false _ ▸ hex]⟩)
@@ -295,7 +296,7 @@ theorem masterStep_spec (cfg : Cfg α β) (s : State (MPhase β) β) :
             simpa [masterStep, hm, hj, hlq, he', hex] using this
           · have hex' : isExited (s.ws j).phase = false := by simpa using hex
             left; refine ⟨?_, .logs j hm hj hlq he' hex'⟩
-            simp [masterStep, hm, hj, hlq, he', hex']; exact state_eta_ended s he'
+            simp [masterStep, hm, hj, hlq, he', hex']; cases s; simp_all
       | cons it rest =>
         cases it with
         | record => right; have := MasterTr.record (cfg := cfg) (s := s) j rest hm hj hlq
@@ -327,18 +328,27 @@ theorem masterStep_spec (cfg : Cfg α β) (s : State (MPhase β) β) :
 
 /-! ### safety: what is in the queues, in the map and in a returned result -/
 
+/-- the phases of the gather loop, after the master's own chunk -/
+def Gathering : MPhase β → Prop
+  | .gather => True
+  | .drain _ => True
+  | .join => True
+  | .recv => True
+  | _ => False
+
 /-- invariant of every reachable state, whatever the faults -/
 structure Safe (cfg : Cfg α β) (s : State (MPhase β) β) : Prop where
   own : ∀ t, s.m = .own t → s.acc0 = (full cfg 0).take t
-  acc0 : (∀ t, s.m ≠ .own t) → s.acc0 = full cfg 0
-  rq : ∀ j r, (j, r) ∈ s.rq → r = full cfg (j+1)
+  acc0 : Gathering s.m → s.acc0 = full cfg 0
+  rq : ∀ j r, (j, r) ∈ s.rq → r = full cfg (j+1) ∧ j < cfg.nchild
   got : ∀ j r, (s.ws j).got = some r → r = full cfg (j+1)
   acc : ∀ j t, (s.ws j).phase = .running t → (s.ws j).acc = (full cfg (j+1)).take t
   join : s.m = .join → cfg.nchild ≤ filled cfg.nchild s.ws
   done : ∀ r, s.m = .done r → r = expected cfg
+  drainlt : ∀ j, s.m = .drain j → j < cfg.nchild
 
 theorem safe_init (cfg : Cfg α β) : Safe cfg (init : State (MPhase β) β) := by
-  constructor <;> simp [init, initChild]
+  constructor <;> simp [init, initChild, Gathering]
 
 theorem filled_setChild (n : Nat) (s : State (MPhase β) β) (j : Nat) (c : Child β)
     (h : c.got = (s.ws j).got) : filled n (setChild s j c).ws = filled n s.ws := by
@@ -350,13 +360,52 @@ theorem filled_setChild (n : Nat) (s : State (MPhase β) β) (j : Nat) (c : Chil
   · subst_vars; rw [h]
   · rfl
 
+/-! `stop_processes()` -/
+
+@[simp] theorem terminateAll_got (ws : Nat → Child β) (j : Nat) : (terminateAll ws j).got = (ws j).got := by
+  unfold terminateAll; split <;> rfl
+@[simp] theorem terminateAll_acc (ws : Nat → Child β) (j : Nat) : (terminateAll ws j).acc = (ws j).acc := by
+  unfold terminateAll; split <;> rfl
+@[simp] theorem terminateAll_lq (ws : Nat → Child β) (j : Nat) : (terminateAll ws j).lq = (ws j).lq := by
+  unfold terminateAll; split <;> rfl
+@[simp] theorem terminateAll_exited (ws : Nat → Child β) (j : Nat) :
+    isExited (terminateAll ws j).phase = true := by
+  unfold terminateAll; split
+  · assumption
+  · rfl
+theorem terminateAll_of_exited (ws : Nat → Child β) (j : Nat) (h : isExited (ws j).phase = true) :
+    terminateAll ws j = ws j := by
+  unfold terminateAll; simp [h]
+theorem terminateAll_not_running (ws : Nat → Child β) (j t : Nat) :
+    (terminateAll ws j).phase ≠ .running t := by
+  intro h
+  have := terminateAll_exited ws j
+  rw [h] at this; simp [isExited] at this
+theorem terminateAll_phase (ws : Nat → Child β) (j : Nat) :
+    (terminateAll ws j).phase = (ws j).phase ∨
+    (isExited (ws j).phase = false ∧ (terminateAll ws j).phase = .exited 143) := by
+  unfold terminateAll; split
+  · exact Or.inl rfl
+  · rename_i h; exact Or.inr ⟨by simpa using h, rfl⟩
+@[simp] theorem raiseStop_m (s : State (MPhase β) β) : (raiseStop s).m = .error := rfl
+@[simp] theorem raiseStop_ws (s : State (MPhase β) β) : (raiseStop s).ws = terminateAll s.ws := rfl
+@[simp] theorem raiseStop_rq (s : State (MPhase β) β) : (raiseStop s).rq = s.rq := rfl
+@[simp] theorem raiseStop_acc0 (s : State (MPhase β) β) : (raiseStop s).acc0 = s.acc0 := rfl
+@[simp] theorem raiseStop_poison (s : State (MPhase β) β) : (raiseStop s).poison = s.poison := rfl
+@[simp] theorem raiseStop_ended (s : State (MPhase β) β) : (raiseStop s).ended = s.ended := rfl
+
+theorem safe_raiseStop (cfg : Cfg α β) (s : State (MPhase β) β) (h : Safe cfg s) : Safe cfg (raiseStop s) := by
+  refine ⟨by simp, fun hg => by simp [Gathering] at hg, h.rq, ?_, ?_, by simp, by simp, by simp⟩
+  · intro j r; simp only [raiseStop_ws, terminateAll_got]; exact h.got j r
+  · intro j t hp; exact absurd hp (terminateAll_not_running _ _ _)
+
 theorem safe_child (cfg : Cfg α β) (s : State (MPhase β) β) (j : Nat) (h : Safe cfg s) :
     Safe cfg (childStep cfg s j) := by
   rcases childStep_spec cfg s j with ⟨_, he⟩ | ⟨hj, c', items, htr, _, he, _⟩
   · rw [he]; exact h
   rw [he]
   have hgot : c'.got = (s.ws j).got := by cases htr <;> rfl
-  refine ⟨h.own, h.acc0, ?_, ?_, ?_, ?_, h.done⟩
+  refine ⟨h.own, h.acc0, ?_, ?_, ?_, ?_, h.done, h.drainlt⟩
   · intro i r hmem
     simp only [List.mem_append] at hmem
     rcases hmem with hmem | hmem
@@ -364,7 +413,7 @@ theorem safe_child (cfg : Cfg α β) (s : State (MPhase β) β) (j : Nat) (h : S
     · cases htr <;> simp at hmem
       rename_i t hph hx _ _
       obtain ⟨rfl, rfl⟩ := hmem
-      rw [h.acc _ _ hph, take_full_of_none cfg _ _ hx]
+      exact ⟨by rw [h.acc _ _ hph, take_full_of_none cfg _ _ hx], hj⟩
   · intro i r; simp only [setChild_ws]; split
     · subst_vars; rw [hgot]; exact h.got _ r
     · exact h.got i r
@@ -384,33 +433,38 @@ theorem safe_master (cfg : Cfg α β) (s : State (MPhase β) β) (h : Safe cfg s
   rcases masterStep_spec cfg s with ⟨he, _⟩ | htr
   · rw [he]; exact h
   generalize masterStep cfg s = s' at htr ⊢
+  have hg : ∀ {m : MPhase β}, s.m = m → Gathering m → s.acc0 = full cfg 0 :=
+    fun hm hgm => h.acc0 (hm ▸ hgm)
   cases htr with
-  | ownTask t x hm hx =>
-    refine ⟨?_, ?_, h.rq, h.got, h.acc, by simp, by simp⟩
-    · intro t' ht'; simp at ht'; subst ht'
-      simp [take_succ_full cfg _ _ x hx, h.own t hm]
-    · intro hc; exact absurd rfl (hc (t+1))
+  | ownTask t x hm hx _ =>
+    refine ⟨?_, fun hg' => by simp [Gathering] at hg', h.rq, h.got, h.acc, by simp, by simp, by simp⟩
+    intro t' ht'; simp at ht'; subst ht'
+    simp [take_succ_full cfg _ _ x hx, h.own t hm]
+  | ownRaise t x hm hx _ => exact safe_raiseStop cfg s h
   | ownEnd t hm hx =>
-    refine ⟨by simp, ?_, h.rq, h.got, h.acc, by simp, by simp⟩
+    refine ⟨by simp, ?_, h.rq, h.got, h.acc, by simp, by simp, by simp⟩
     intro _; simp [h.own t hm, take_full_of_none cfg _ _ hx]
   | pop j r rest hm hf hrq _ =>
-    have h0 := h.acc0 (by simp [hm])
-    refine ⟨by simp, fun _ => h0, ?_, ?_, ?_, by simp, by simp⟩
+    have h0 := hg hm trivial
+    have hjr := h.rq j r (by simp [hrq])
+    refine ⟨by simp, fun _ => h0, ?_, ?_, ?_, by simp, by simp, ?_⟩
     · intro i r' hmem; exact h.rq i r' (by simp [hrq, hmem])
     · intro i r'; simp only [setChild_ws]; split
-      · subst_vars; simp; rintro rfl; exact h.rq _ _ (by simp [hrq])
+      · subst_vars; simp; rintro rfl; exact hjr.1
       · exact h.got i r'
     · intro i t'; simp only [setChild_ws]; split
       · subst_vars; exact h.acc _ t'
       · exact h.acc i t'
+    · intro i hi; simp at hi; subst hi; exact hjr.2
   | blocked hm _ _ =>
-    exact ⟨by simp, fun _ => h.acc0 (by simp [hm]), h.rq, h.got, h.acc, by simp, by simp⟩
-  | missing j hm _ _ _ _ _ =>
-    exact ⟨by simp, fun _ => h.acc0 (by simp [hm]), h.rq, h.got, h.acc, by simp, by simp⟩
+    exact ⟨by simp, fun _ => hg hm trivial, h.rq, h.got, h.acc, by simp, by simp, by simp⟩
+  | missing hm _ _ _ => exact safe_raiseStop cfg s h
+  | resnap hm _ _ _ _ =>
+    exact ⟨by simp [hm], fun _ => hg hm trivial, h.rq, h.got, h.acc, by simp [hm], by simp [hm], by simp [hm]⟩
   | toJoin hm hf =>
-    exact ⟨by simp, fun _ => h.acc0 (by simp [hm]), h.rq, h.got, h.acc, fun _ => by simpa using hf, by simp⟩
+    exact ⟨by simp, fun _ => hg hm trivial, h.rq, h.got, h.acc, fun _ => by simpa using hf, by simp, by simp⟩
   | sentinel j rest hm hj hlq =>
-    refine ⟨by simp, fun _ => h.acc0 (by simp [hm]), h.rq, ?_, ?_, by simp, by simp⟩
+    refine ⟨by simp, fun _ => hg hm trivial, h.rq, ?_, ?_, by simp, by simp, by simp⟩
     · intro i r'; simp only [setChild_ws]; split
       · subst_vars; exact h.got _ r'
       · exact h.got i r'
@@ -418,26 +472,31 @@ theorem safe_master (cfg : Cfg α β) (s : State (MPhase β) β) (h : Safe cfg s
       · subst_vars; exact h.acc _ t'
       · exact h.acc i t'
   | record j rest hm hj hlq =>
-    refine ⟨by simp [hm], fun _ => h.acc0 (by simp [hm]), h.rq, ?_, ?_, by simp [hm], by simp [hm]⟩
+    refine ⟨by simp [hm], fun _ => hg hm trivial, h.rq, ?_, ?_, by simp [hm], by simp [hm], ?_⟩
     · intro i r'; simp only [setChild_ws]; split
       · subst_vars; exact h.got _ r'
       · exact h.got i r'
     · intro i t'; simp only [setChild_ws]; split
       · subst_vars; exact h.acc _ t'
       · exact h.acc i t'
-  | logsLost j hm _ _ _ =>
-    exact ⟨by simp, fun _ => h.acc0 (by simp [hm]), h.rq, h.got, h.acc, by simp, by simp⟩
+    · intro i hi; exact h.drainlt i hi
+  | logsLost j hm _ _ _ => exact safe_raiseStop cfg s h
+  | drainSnap j hm _ _ _ _ =>
+    exact ⟨by simp [hm], fun _ => hg hm trivial, h.rq, h.got, h.acc, by simp [hm], by simp [hm],
+      fun i hi => h.drainlt i hi⟩
   | badPid j hm _ =>
-    exact ⟨by simp, fun _ => h.acc0 (by simp [hm]), h.rq, h.got, h.acc, by simp, by simp⟩
-  | done r hm hall hc =>
-    refine ⟨by simp, fun _ => h.acc0 (by simp [hm]), h.rq, h.got, h.acc, by simp, ?_⟩
+    exact ⟨by simp, fun hg' => by simp [Gathering] at hg', h.rq, h.got, h.acc, by simp, by simp, by simp⟩
+  | done r hm hall _ hc =>
+    refine ⟨by simp, fun hg' => by simp [Gathering] at hg', h.rq, h.got, h.acc, by simp, ?_, by simp⟩
     intro r' hr'; simp at hr'; subst hr'
     have hfl : filled cfg.nchild s.ws = cfg.nchild := le_antisymm (countTo_le _ _) (h.join hm)
     rw [hfl] at hc
-    rw [expected_eq, h.acc0 (by simp [hm]),
+    rw [expected_eq, hg hm trivial,
       collect_eq (fun j => full cfg (j+1)) _ _ _ hc (fun j _ x hx => h.got j x hx)]
-  | keyError hm _ _ =>
-    exact ⟨by simp, fun _ => h.acc0 (by simp [hm]), h.rq, h.got, h.acc, by simp, by simp⟩
+  | keyError hm _ _ _ =>
+    exact ⟨by simp, fun hg' => by simp [Gathering] at hg', h.rq, h.got, h.acc, by simp, by simp, by simp⟩
+  | badExit hm _ _ =>
+    exact ⟨by simp, fun hg' => by simp [Gathering] at hg', h.rq, h.got, h.acc, by simp, by simp, by simp⟩
 
 theorem safe_run (cfg : Cfg α β) (σ : Nat → Agent) (k : Nat) : Safe cfg (run cfg σ k) := by
   induction k with
@@ -458,7 +517,7 @@ def stepsLeft (k : Nat) : WPhase → Nat
   | .exited _ => 0
 
 def masterLeft (k0 : Nat) : MPhase β → Nat
-  | .own t => (k0 - t) + 3
+  | .own t => (k0 - t) + 4
   | .gather => 2
   | .drain _ => 3
   | .join => 1
@@ -466,15 +525,30 @@ def masterLeft (k0 : Nat) : MPhase β → Nat
   | .error => 0
   | .recv => 0
 
+/-- a snapshot that has not yet seen a terminated child may still turn -/
+def endedBit (b : Bool) : Nat := if b then 0 else 1
+
 def childPot (cfg : Cfg α β) (j : Nat) (c : Child β) : Nat :=
-  3 * stepsLeft (cfg.chunk (j+1)).length c.phase + c.lq.length
+  4 * stepsLeft (cfg.chunk (j+1)).length c.phase + 2 * c.lq.length
 
 /-- ranking function: strictly decreases with every step that changes the state -/
 def pot (cfg : Cfg α β) (s : State (MPhase β) β) : Nat :=
-  sumTo cfg.nchild (fun j => childPot cfg j (s.ws j)) + 2 * s.rq.length + masterLeft (cfg.chunk 0).length s.m
+  sumTo cfg.nchild (fun j => childPot cfg j (s.ws j)) + 3 * s.rq.length +
+    masterLeft (cfg.chunk 0).length s.m + endedBit s.ended
+
+theorem endedBit_le (b : Bool) : endedBit b ≤ 1 := by cases b <;> simp [endedBit]
+
+theorem sumTo_le (n : Nat) (g g' : Nat → Nat) (h : ∀ j < n, g' j ≤ g j) : sumTo n g' ≤ sumTo n g := by
+  induction n with
+  | zero => simp [sumTo]
+  | succ n ih =>
+    simp only [sumTo]
+    have := ih (fun j hj => h j (by omega))
+    have := h n (by omega)
+    omega
 
 theorem childTr_dec (cfg : Cfg α β) (j : Nat) (c c' : Child β) (items : List (Nat × List β))
-    (h : ChildTr cfg j c c' items) : childPot cfg j c' + 2 * items.length < childPot cfg j c := by
+    (h : ChildTr cfg j c c' items) : childPot cfg j c' + 3 * items.length < childPot cfg j c := by
   cases h with
   | task t x hph hx hf =>
     have ht : t < (cfg.chunk (j+1)).length := by
@@ -503,7 +577,7 @@ theorem pot_child (cfg : Cfg α β) (s : State (MPhase β) β) (j : Nat) (hj : j
     pot cfg { setChild s j c' with rq := s.rq ++ items } < pot cfg s := by
   have hd := childTr_dec cfg j _ _ _ h
   have hu := sum_setChild cfg s j hj c'
-  simp only [pot, setChild_m, List.length_append]
+  simp only [pot, setChild_m, setChild_ended, List.length_append]
   omega
 
 theorem pot_setChild (cfg : Cfg α β) (s : State (MPhase β) β) (j : Nat) (c : Child β)
@@ -517,40 +591,64 @@ theorem pot_setChild (cfg : Cfg α β) (s : State (MPhase β) β) (j : Nat) (c :
   · subst_vars; simp [childPot, hp, hl]
   · rfl
 
+theorem childPot_terminate (cfg : Cfg α β) (ws : Nat → Child β) (j : Nat) :
+    childPot cfg j (terminateAll ws j) ≤ childPot cfg j (ws j) := by
+  simp only [childPot, terminateAll_lq]
+  rcases terminateAll_phase ws j with h | ⟨_, h⟩
+  · rw [h]
+  · rw [h]; simp [stepsLeft]
+
+theorem pot_raiseStop (cfg : Cfg α β) (s : State (MPhase β) β) (h : 0 < masterLeft (cfg.chunk 0).length s.m) :
+    pot cfg (raiseStop s) < pot cfg s := by
+  have := sumTo_le cfg.nchild (fun j => childPot cfg j (s.ws j)) (fun j => childPot cfg j (terminateAll s.ws j))
+    (fun j _ => childPot_terminate cfg s.ws j)
+  have h0 : masterLeft (cfg.chunk 0).length (MPhase.error : MPhase β) = 0 := rfl
+  simp only [pot, raiseStop_ws, raiseStop_rq, raiseStop_m, raiseStop_ended, h0]
+  omega
+
 theorem pot_master (cfg : Cfg α β) (s s' : State (MPhase β) β) (h : MasterTr cfg s s') :
     pot cfg s' < pot cfg s := by
   cases h with
-  | ownTask t x hm hx =>
+  | ownTask t x hm hx _ =>
     have ht : t < (cfg.chunk 0).length := by
       by_contra hc; simp [List.getElem?_eq_none (Nat.le_of_not_lt hc)] at hx
     simp only [pot, hm, masterLeft]; omega
-  | ownEnd t hm hx => simp only [pot, hm, masterLeft]; omega
+  | ownRaise t x hm hx _ => exact pot_raiseStop cfg s (by simp [hm, masterLeft])
+  | ownEnd t hm hx =>
+    have := endedBit_le (snapG cfg s)
+    simp only [pot, hm, masterLeft]; omega
   | pop j r rest hm hf hrq _ =>
     have := pot_setChild cfg s j { s.ws j with got := some r } rfl rfl
+    have := endedBit_le (isExited (s.ws j).phase)
     simp only [pot, hm, masterLeft, hrq, List.length_cons]
-    simp only [setChild] at this ⊢
+    simp only [setChild] at *
     omega
   | blocked hm _ _ => simp only [pot, hm, masterLeft]; omega
-  | missing j hm _ _ _ _ _ => simp only [pot, hm, masterLeft]; omega
+  | missing hm _ _ _ => exact pot_raiseStop cfg s (by simp [hm, masterLeft])
+  | resnap hm _ _ he _ => simp only [pot, hm, masterLeft, he, endedBit]; simp
   | toJoin hm hf => simp only [pot, hm, masterLeft]; omega
   | sentinel j rest hm hj hlq =>
     have hu := sum_setChild cfg s j hj { s.ws j with lq := rest }
-    have h1 : childPot cfg j { s.ws j with lq := rest } + 1 = childPot cfg j (s.ws j) := by
+    have h1 : childPot cfg j { s.ws j with lq := rest } + 2 = childPot cfg j (s.ws j) := by
       simp [childPot, hlq]; omega
+    have := endedBit_le (snapG cfg s)
     simp only [pot, hm, masterLeft, setChild_rq]
     dsimp only at hu h1 ⊢
     omega
   | record j rest hm hj hlq =>
     have hu := sum_setChild cfg s j hj { s.ws j with lq := rest }
-    have h1 : childPot cfg j { s.ws j with lq := rest } + 1 = childPot cfg j (s.ws j) := by
+    have h1 : childPot cfg j { s.ws j with lq := rest } + 2 = childPot cfg j (s.ws j) := by
       simp [childPot, hlq]; omega
+    have := endedBit_le (isExited (s.ws j).phase)
     simp only [pot, setChild_m, setChild_rq]
     dsimp only at hu h1 ⊢
     omega
-  | logsLost j hm _ _ _ => simp only [pot, hm, masterLeft]; omega
+  | logsLost j hm _ _ _ => exact pot_raiseStop cfg s (by simp [hm, masterLeft])
+  | drainSnap j hm _ _ he _ => simp only [pot, hm, masterLeft, he, endedBit]; simp
   | badPid j hm _ => simp only [pot, hm, masterLeft]; omega
-  | done r hm _ _ => simp only [pot, hm, masterLeft]; omega
-  | keyError hm _ _ => simp only [pot, hm, masterLeft]; omega
+  | done r hm _ _ _ => simp only [pot, hm, masterLeft]; omega
+  | keyError hm _ _ _ => simp only [pot, hm, masterLeft]; omega
+  | badExit hm _ _ => simp only [pot, hm, masterLeft]; omega
 
 theorem step_eq_or_dec (cfg : Cfg α β) (s : State (MPhase β) β) (a : Agent) :
     step cfg s a = s ∨ pot cfg (step cfg s a) < pot cfg s := by
@@ -594,11 +692,11 @@ theorem exists_productive (cfg : Cfg α β) (s : State (MPhase β) β) (hnt : s.
     ∃ a, ValidAgent cfg.nchild a ∧ pot cfg (step cfg s a) < pot cfg s := by
   rcases masterStep_spec cfg s with ⟨_, hw⟩ | htr
   · cases hw with
-    | results hm hf hrq hall =>
+    | results hm hf hrq _ hall =>
       obtain ⟨j, hj, hg⟩ := countTo_lt_exists _ _ hf
       have hg' : (s.ws j).got = none := by simpa using hg
       exact ⟨.child j, hj, child_productive cfg s j hj (hall j hj hg')⟩
-    | logs j hm hj hlq he => exact ⟨.child j, hj, child_productive cfg s j hj he⟩
+    | logs j hm hj hlq _ he => exact ⟨.child j, hj, child_productive cfg s j hj he⟩
     | join j hm hj he => exact ⟨.child j, hj, child_productive cfg s j hj he⟩
     | terminal ht => simp [ht] at hnt
     | recv hm => exact absurd hm hnr
